@@ -38,6 +38,14 @@ THEOREMS = [
     "C03_roundtrip_gate",
     "C03_roundtrip_reverses_witness",
     "C03_second_marker_witness",
+    "C03_setInputs_refused_prefix",
+    "C03_admission_gate",
+    "C03_not_admitted_runs_nothing",
+    "C03_calls_always_good",
+    "C03_submit_gate",
+    "C03_complete_calls",
+    "C03_run_function_node",
+    "C03_file_second_restore_noop",
 ]
 RULE = (
     "family `prod`: the full product of 0-4 connections x every connection order x every upstream state "
@@ -113,12 +121,26 @@ SPECS = {
     "MU": (_U3, _O3, ("c", "C3")),
     "MM": (_U3, _O3, ("m", "M3")),
     "CF": (_F3, _O3, None),
+    "C3C": (_I3, _O3, None),
+    "SrcN": ((("a", None),), (("o", None),), None),
+    # a composite with several children: kids (label, spec); inl: macro input idx -> (kid idx, kid input idx);
+    # outl: (kid idx, kid output idx) -> macro output idx; wires: (kid, input idx) <- (kid, output idx) in the order
+    # the connections are made; deps: kid idx -> kid idxs whose `ran` it waits for (kids are listed in run order)
+    "MC": (_U3 + (("u", None),), _O3,
+           {"kids": (("a", "SrcN"), ("b", "SrcN"), ("c", "C3")),
+            "inl": ((0, (0, 0)), (1, (2, 1)), (2, (2, 2)), (3, (1, 0))),
+            "outl": (((2, 0), 0), ((2, 1), 1), ((2, 2), 2)),
+            "wires": (((2, 0), (0, 0)), ((2, 0), (1, 0))),
+            "deps": {2: (0, 1)}}),
 }
+QUIET = {"SrcU", "SrcT", "SrcS", "SrcN"}  # node classes whose function does not write to the call log
+CACHED = {"SrcU", "SrcT", "SrcS", "C3C"}  # node classes with use_cache on (the library's default)
 
 
-def layout(specs):
-    """node table, channel table and initial value links, computed without touching the library"""
-    nodes, chans, links = [], [], []
+def layout(specs, full=False):
+    """node table, channel table and initial value links (`full`: also the initial connections), computed without
+    touching the library"""
+    nodes, chans, links, wires = [], [], [], []
 
     def add(spec, path):
         ins, outs, child = SPECS[spec]
@@ -132,7 +154,18 @@ def layout(specs):
         for lab, hint in outs:
             node["outs"].append(len(chans))
             chans.append({"id": len(chans), "node": nid, "panel": "out", "label": lab, "hint": hint})
-        if child is not None:
+        node["deps"] = {}
+        if isinstance(child, dict):
+            kid = [add(sp, path + (lab,)) for lab, sp in child["kids"]]
+            node["kids"] = kid
+            for mi, (k, ki) in child["inl"]:
+                links.append((node["ins"][mi], nodes[kid[k]]["ins"][ki]))
+            for (k, ko), mo in child["outl"]:
+                links.append((nodes[kid[k]]["outs"][ko], node["outs"][mo]))
+            for (k, ki), (k2, ko) in child["wires"]:
+                wires.append((nodes[kid[k]]["ins"][ki], nodes[kid[k2]]["outs"][ko]))
+            node["deps"] = {kid[k]: [kid[d] for d in ds] for k, ds in child["deps"].items()}
+        elif child is not None:
             cid = add(child[1], path + (child[0],))
             node["kids"].append(cid)
             cn = nodes[cid]
@@ -144,6 +177,8 @@ def layout(specs):
 
     for i, spec in enumerate(specs):
         add(spec, (i,))
+    if full:
+        return nodes, chans, links, wires
     return nodes, chans, links
 
 
@@ -429,10 +464,11 @@ def _path_points():
 RAND_SPECS = ["SrcU", "SrcT", "SrcS", "C3", "C3T", "MU", "C3", "MM"]
 
 
-def _rand_case(rng, length, bad=False, wf=False, serial=False):
+def _rand_case(rng, length, bad=False, wf=False, serial=False, general=False):
     """`serial`: pickle round trips at any point of the history — of the whole graph when the nodes live in a
-    workflow (`wf`), of single top-level nodes otherwise"""
-    specs = list(RAND_SPECS)
+    workflow (`wf`), of single top-level nodes otherwise; `general`: also runs of the macros themselves (MU, MM and
+    the three-child MC), a cached consumer, and runs shipped by value to an executor and completed later"""
+    specs = list(RAND_SPECS) + (["MC", "C3C"] if general else [])
     nodes, chans, _links = layout(specs)
     ins = [c["id"] for c in chans if c["panel"] == "in"]
     outs = [c["id"] for c in chans if c["panel"] == "out"]
@@ -442,6 +478,10 @@ def _rand_case(rng, length, bad=False, wf=False, serial=False):
     assert nodes[donor]["spec"] == "C3" and nodes[donor]["path"] == (6,)
     no_conn = set(nodes[donor]["ins"] + nodes[donor]["outs"])
     runnable = [n["id"] for n in nodes if n["spec"] in ("C3", "C3T") and n["id"] != donor]
+    macros = [n["id"] for n in nodes if n["spec"] in ("MU", "MM", "MC") and len(n["path"]) == 1]
+    cachedn = [n["id"] for n in nodes if n["spec"] == "C3C"]
+    if general:
+        cons_ins = cons_ins + [c for n in nodes if n["spec"] in ("MC", "C3C") and len(n["path"]) == 1 for c in n["ins"]]
     ops = []
 
     def val():
@@ -456,7 +496,7 @@ def _rand_case(rng, length, bad=False, wf=False, serial=False):
         """a value that suits the hint of input `lab` of the consumers most of the time"""
         if serial and rng.random() < 0.75:
             return {"x": rng.choice([1, 2, 3, 210, 214, 230]), "y": rng.choice([101, 102, 211]),
-                    "z": rng.choice([5, 6, 200, 225])}[lab]
+                    "z": rng.choice([5, 6, 200, 225]), "u": rng.choice([4, 5, 103, 214])}[lab]
         return val()
 
     def kwargs(n):
@@ -476,10 +516,31 @@ def _rand_case(rng, length, bad=False, wf=False, serial=False):
 
     for _ in range(length):
         r = rng.random()
+        if general and rng.random() < 0.22:
+            q = rng.random()
+            if q < 0.4:
+                n = rng.choice(macros)
+                kw, pos = kwargs(n)
+                ops.append(["run", n, kw, pos])
+            elif q < 0.6:
+                n = rng.choice(cachedn)
+                labs = "xyz"
+                kw = [[lab, rng.choice({"x": [1, 2], "y": [101, 102], "z": [5, 6, "ND"]}[lab])] for lab in labs
+                      if rng.random() < 0.6]
+                ops.append(["run", n, kw, []])
+            elif q < 0.8:
+                n = rng.choice(runnable + cachedn)
+                kw, pos = kwargs(n) if n in runnable else ([["z", rng.choice([5, 6])]], [])
+                ops.append(["runx", n, kw, pos, rng.choice(["pickle", "cloud"])])
+            else:
+                outl = [o[1] for o in ops if o[0] == "runx"]
+                ops.append(["complete", rng.choice(outl[-2:]) if outl and rng.random() < 0.85
+                            else rng.choice(runnable + cachedn)])
+            continue
         if serial and rng.random() < 0.09:
             backend = rng.choice(["pickle", "pickle", "cloud"])
             if wf:
-                ops.append(["rt", backend])
+                ops.append(["rt", backend if rng.random() < 0.8 else "file"])
             else:
                 ops.append(["rtnode", rng.choice([0, 1, 2, 3, 4, 5, 7, 8]), backend])
             continue
@@ -548,7 +609,7 @@ def _rand_case(rng, length, bad=False, wf=False, serial=False):
                    if not (o[0] in ("connect", "assign", "disconnect") and o[1] not in top_in and o[0] != "assign")
                    and not (o[0] == "assign" and isinstance(o[2], str) and o[2].startswith("@") and o[1] not in top_in)
                    and not (o[0] == "link" and o[1] in macro_in)]
-        case = {"fam": "randrt", "nodes": specs, "ops": ops}
+        case = {"fam": "randx" if general else "randrt", "nodes": specs, "ops": ops}
         if wf:
             case["wf"] = True
         return case
@@ -599,7 +660,7 @@ def _rt_case(k, perm, states, own, pos, backend, zset, idx):
         if not zset:
             ops += [["set", z, good[2]], ["run", cn, [], []]]
     elif pos == "twice":
-        ops = setup + wire + [rt, ["rt", "cloud" if backend == "pickle" else "pickle"], ["run", cn, [], []]]
+        ops = setup + wire + [rt, ["rt", "cloud" if backend != "cloud" else "file"], ["run", cn, [], []]]
     else:
         # macro forwarding across the round trip: MU -> c, MM -> m -> c
         mu, mm = 4, 6
@@ -625,7 +686,7 @@ def _rt_points():
             for states in itertools.product(("data", "nd", "bad"), repeat=k):
                 for own in ("nd", "data", "bad"):
                     for pos in RT_POS:
-                        for backend in ("pickle", "cloud"):
+                        for backend in ("pickle", "cloud", "file"):
                             for zset in (True, False):
                                 pts.append((k, perm, states, own, pos, backend, zset))
     return pts
@@ -705,6 +766,185 @@ def _adv_case(v, cons, which, path, strict, serial, idx):
     return case
 
 
+# runs of composites, of a cached node, and runs shipped to an executor
+MRUN_KIND = ["MU", "MM", "M3", "MC"]
+MRUN_IN = ["ok", "nd", "badforchild", "childnd", "childbad", "fetchok", "fetchnd", "fetchbad", "kwbad", "kwnd"]
+
+
+def _mrun_case(kind, how, wfmode, idx):
+    """a macro is run itself: its own gate (every macro input holds data its hint accepts) comes first, then every
+    child passes its own gate; `how` says what is wrong, if anything"""
+    specs = ["SrcU", kind, "C3"]
+    nodes, _c, _l = layout(specs)
+    m = 1
+    mins = nodes[m]["ins"]
+    leaf = [n for n in nodes if n["path"][0] == 1 and n["spec"] == "C3"][0]
+    lx, ly, lz = leaf["ins"]
+    up = nodes[0]["outs"][0]
+    ops = [["set", mins[1], 101], ["set", mins[2], 5]]
+    if kind == "MC":
+        ops.append(["set", mins[3], 2])
+    kw = []
+    if how in ("ok", "childnd", "childbad"):
+        ops.append(["set", mins[0], 1])
+    elif how == "badforchild":
+        ops.append(["set", mins[0], 103])  # refused by the strict child down the chain (or by M3 itself)
+        ops.append(["set", mins[0], 222])
+    elif how in ("fetchok", "fetchnd", "fetchbad"):
+        v = {"fetchok": 4, "fetchbad": 220}.get(how)
+        if v is not None:
+            ops.append(["set", up, v])
+        if idx % 2:
+            ops.append(["set", mins[0], 1])
+        ops.append(["connect", mins[0], up])
+    elif how == "kwbad":
+        kw = [["x", 241]]
+    elif how == "kwnd":
+        ops.append(["set", mins[0], 1])
+        kw = [["z", "ND"]]
+    if how == "childnd":
+        ops.append(["set", lz, "ND"])
+    if how == "childbad":
+        ops += [["strict", ly, 0], ["set", ly, 7]] + ([["strict", ly, 1]] if idx % 2 else [])
+    if wfmode == "rt":
+        ops.append(["rt", "cloud" if idx % 3 == 0 else "pickle"])
+    elif wfmode == "rtnode":
+        ops.append(["rtnode", m, "cloud" if idx % 3 == 0 else "pickle"])
+    ops.append(["run", m, kw, []])
+    ops.append(["run", m, [], []])
+    # repair and run again: a composite that failed stays failed until reset by hand
+    ops += [["flag", n["id"], 0, 0] for n in nodes if n["path"][0] == 1 and n["kids"]]
+    ops += [["set", lz, 5], ["set", mins[0], 3], ["run", m, [["z", 6]], []]]
+    case = {"fam": "mrun", "nodes": specs, "ops": ops, "dims": {"kind": kind, "how": how, "wfmode": wfmode}}
+    if wfmode == "rt":
+        case["wf"] = True
+    return case
+
+
+def _mrun_points():
+    return [(k, h, w) for k in MRUN_KIND for h in MRUN_IN for w in (None, "rt", "rtnode")]
+
+
+def _cache_case(seq, idx):
+    """a consumer with the cache ON: the cache may answer for a run — but only for one the gate would admit"""
+    specs = ["SrcU", "C3C"]
+    nodes, _c, _l = layout(specs)
+    n = 1
+    x, y, z = nodes[n]["ins"]
+    up = nodes[0]["outs"][0]
+    ops = [["set", x, 1], ["set", y, 101], ["set", z, 5]]
+    for j, step in enumerate(seq):
+        if step == "run":
+            ops.append(["run", n, [], []])
+        elif step == "same":
+            ops.append(["run", n, [["z", 5]], []])
+        elif step == "other":
+            ops.append(["run", n, [["z", 6 + j]], []])
+        elif step == "nd":
+            ops.append(["set", z, "ND"])
+        elif step == "back":
+            ops.append(["set", z, 5])
+        elif step == "soft":
+            ops += [["strict", x, 0], ["set", x, 102]]
+        elif step == "hard":
+            ops.append(["strict", x, 1])
+        elif step == "badx":
+            ops += [["strict", x, 0], ["set", x, 102], ["strict", x, 1]]
+        elif step == "goodx":
+            ops.append(["set", x, 1])
+        elif step == "fail":
+            ops.append(["flag", n, 0, 1])
+        elif step == "lock":
+            ops.append(["flag", n, 1, 0])
+        elif step == "reset":
+            ops.append(["flag", n, 0, 0])
+        elif step == "up":
+            ops += [["set", up, 1], ["connect", x, up]]
+        elif step == "upnd":
+            ops += [["set", up, "ND"]]
+        elif step == "rtnode":
+            ops.append(["rtnode", n, "pickle"])
+        elif step == "runx":
+            ops.append(["runx", n, [], [], "cloud" if idx % 2 else "pickle"])
+        elif step == "complete":
+            ops.append(["complete", n])
+    return {"fam": "cache", "nodes": specs, "ops": ops, "dims": {"seq": list(seq)}}
+
+
+CACHE_STEPS = ["run", "same", "other", "nd", "back", "badx", "goodx", "fail", "lock", "reset", "up", "upnd", "rtnode",
+               "runx", "complete"]
+
+
+def _cache_points():
+    pts = []
+    for a in CACHE_STEPS:
+        for b in CACHE_STEPS:
+            pts.append(("run", a, "run", b, "run", "reset", "back", "goodx", "run"))
+            pts.append((a, "run", b, "same"))
+    # a value cached while the hint was not strict; the hint is switched on; the cache must not answer
+    for a in CACHE_STEPS:
+        pts.append(("soft", "run", "hard", "run", a, "run"))
+        pts.append(("soft", "run", a, "hard", "same"))
+    return pts
+
+
+EXEC_MID = ["none", "setlocked", "setother", "runagain", "connect", "fetch", "strictoff", "stricton", "rtnode",
+            "upchange", "runx2", "flagreset"]
+
+
+def _exec_case(cons, v, which, mid, mode, idx):
+    """the run is shipped by value (callable, arguments and result through pickle); the gate is the submitter's, the
+    arguments are those fetched at submission whatever happens while the job is out"""
+    specs = ["SrcU", cons]
+    nodes, _c, _l = layout(specs)
+    n = 1
+    ins = nodes[n]["ins"]
+    up = nodes[0]["outs"][0]
+    good = {"C3": (9, 101, 5), "CF": (204, 206, 5), "C3C": (9, 101, 5)}[cons]
+    ops = [["set", c, good[j]] for j, c in enumerate(ins) if j != which]
+    ops += [["set", up, v], ["connect", ins[which], up]]
+    ops.append(["runx", n, [], [], mode])
+    if mid == "setlocked":
+        ops.append(["set", ins[which], good[which]])
+    elif mid == "setother":
+        ops.append(["set", ins[(which + 1) % 3], "ND"])
+    elif mid == "runagain":
+        ops.append(["run", n, [], []])
+    elif mid == "connect":
+        ops += [["disconnect", ins[which], up], ["connect", ins[2], up]]
+    elif mid == "fetch":
+        ops += [["set", up, good[which]], ["fetch", ins[which]]]
+    elif mid == "strictoff":
+        ops.append(["strict", ins[which], 0])
+    elif mid == "stricton":
+        ops += [["strict", ins[which], 0], ["strict", ins[which], 1]]
+    elif mid == "rtnode":
+        ops.append(["rtnode", n, "pickle"])
+    elif mid == "upchange":
+        ops.append(["set", up, "ND"])
+    elif mid == "runx2":
+        ops.append(["runx", n, [], [], mode])
+    elif mid == "flagreset":
+        ops.append(["flag", n, 0, 0])
+    ops.append(["complete", n])
+    ops.append(["run", n, [], []])
+    ops.append(["complete", n])
+    return {"fam": "exec", "nodes": specs, "ops": ops,
+            "dims": {"cons": cons, "adv": v, "which": which, "mid": mid, "mode": mode}}
+
+
+def _exec_points():
+    pts = []
+    for cons in ("C3", "CF", "C3C"):
+        vals = (1, 102, "ND") if cons == "C3C" else (1, 101, 204, 206, "ND") + ADV
+        for v in vals:
+            for which in (0, 1, 2):
+                for mid in EXEC_MID:
+                    for mode in ("pickle", "cloud"):
+                        pts.append((cons, v, which, mid, mode))
+    return pts
+
+
 def _adv_points():
     pts = []
     for v in ADV:
@@ -724,10 +964,15 @@ def gen_cases(rng, tier):
     path = _path_points()
     rtp = _rt_points()
     advp = _adv_points()
+    mrp, cap, exp_ = _mrun_points(), _cache_points(), _exec_points()
     if tier == "quick":
-        ridx = sorted(rng.sample(range(len(rtp)), 330))
-        aidx = sorted(rng.sample(range(len(advp)), 420))
-        n_rrt = 150
+        ridx = sorted(rng.sample(range(len(rtp)), 280))
+        aidx = sorted(rng.sample(range(len(advp)), 330))
+        n_rrt = 110
+        midx = range(len(mrp))
+        cidx = sorted(set(rng.sample(range(len(cap)), 80)) | set(range(len(cap) - 30, len(cap), 3)))
+        eidx = sorted(rng.sample(range(len(exp_)), 160))
+        n_rx = 50
         small = [i for i, pt in enumerate(prod) if pt[0] <= 2]
         big = [i for i, pt in enumerate(prod) if pt[0] > 2]
         pidx = small + sorted(rng.sample(big, 900))
@@ -740,6 +985,8 @@ def gen_cases(rng, tier):
         ridx = range(len(rtp))
         aidx = range(len(advp))
         n_rrt = 1500
+        midx, cidx, eidx = range(len(mrp)), range(len(cap)), range(len(exp_))
+        n_rx = 2500
     off = rng.randrange(10_000)
     for i in pidx:
         yield _prod_case(*prod[i], idx=i + off)
@@ -755,6 +1002,14 @@ def gen_cases(rng, tier):
         yield _adv_case(*advp[i], idx=i + off)
     for j in range(n_rrt):
         yield _rand_case(rng, rng.randint(6, 28 if tier == "quick" else 40), wf=j % 3 != 2, serial=True)
+    for i in midx:
+        yield _mrun_case(*mrp[i], idx=i + off)
+    for i in cidx:
+        yield _cache_case(cap[i], idx=i + off)
+    for i in eidx:
+        yield _exec_case(*exp_[i], idx=i + off)
+    for j in range(n_rx):
+        yield _rand_case(rng, rng.randint(8, 30 if tier == "quick" else 42), wf=j % 4 == 0, serial=True, general=True)
 
 
 def corpus():
@@ -801,6 +1056,32 @@ def corpus():
            "ops": [["set", 0, 4], ["set", 6, 7], ["set", 7, 101], ["set", 2, 5], ["rtnode", 0, "pickle"],
                    ["run", 1, [], []], ["set", 12, 3], ["set", 24, 9], ["rtnode", 2, "cloud"], ["link", 12, None],
                    ["rtnode", 2, "pickle"]]}
+    # a macro run itself: its own gate first (u holds no data: refused, not one child function runs), then admitted
+    # (c.x takes b.o, connected last); a value the child's strict hint rejects is refused on its way in; a child
+    # emptied behind the macro's back is refused by its own gate (FailedChildError, nothing called)
+    yield {"fam": "corpus", "nodes": ["MC", "MM"],
+           "ops": [["set", 1, 101], ["set", 2, 5], ["set", 0, 1], ["run", 0, [], []], ["run", 0, [["u", 2]], []],
+                   ["run", 0, [["u", 105]], []], ["flag", 0, 0, 0], ["run", 0, [["u", 3]], []],
+                   ["run", 4, [["x", 1], ["y", 101], ["z", 3]], []], ["set", 17, 104], ["set", 31, "ND"],
+                   ["run", 4, [], []], ["run", 4, [["z", 4]], []]]}
+    # the cache answers only for a run the gate would admit; a job out on an executor keeps the arguments it was
+    # admitted with, its inputs are locked meanwhile, and it completes on a pickled copy
+    yield {"fam": "corpus", "nodes": ["SrcU", "C3C"],
+           "ops": [["run", 1, [["x", 1], ["y", 101], ["z", 5]], []], ["run", 1, [], []], ["run", 1, [["z", "ND"]], []],
+                   ["run", 1, [["z", 5]], []], ["flag", 1, 0, 1], ["run", 1, [], []], ["flag", 1, 0, 0],
+                   ["runx", 1, [["z", 9]], [], "pickle"], ["set", 3, 6], ["run", 1, [], []], ["set", 0, 7], ["complete", 1],
+                   ["run", 1, [], []], ["runx", 1, [["x", 104]], [], "cloud"], ["complete", 1]]}
+    # a composite whose child is still out on an executor: only that child is run again, its refusal surfaces as it is
+    yield {"fam": "corpus", "wf": True, "nodes": ["SrcU", "MC"],
+           "ops": [["set", 3, 101], ["set", 4, 5], ["set", 2, 1], ["set", 5, 2], ["run", 1, [], []],
+                   ["runx", 4, [], [], "cloud"], ["run", 1, [], []], ["complete", 4], ["flag", 1, 0, 0],
+                   ["run", 1, [], []], ["rt", "file"],
+                   ["run", 1, [["u", 3]], []]]}
+    # `running` reset by hand while a job is out, then a second submission: two jobs, completed oldest first, each on
+    # the arguments it was admitted with
+    yield {"fam": "corpus", "nodes": ["SrcU", "C3"],
+           "ops": [["runx", 1, [["x", 214], ["y", 101], ["z", 5]], [], "cloud"], ["flag", 1, 0, 0],
+                   ["runx", 1, [["x", 4]], [], "pickle"], ["complete", 1], ["complete", 1], ["complete", 1]]}
     # copy_io with hard failure reverts
     yield {"fam": "corpus", "nodes": ["C3", "C3"],
            "ops": [["strict", 6, 0], ["set", 6, 104], ["set", 7, 101], ["set", 8, 1], ["set", 1, 102],
@@ -837,8 +1118,12 @@ def _classify(e):
     from pyiron_workflow.io import ValueCopyError
     from pyiron_workflow.mixin.run import ReadinessError
 
+    from pyiron_workflow.nodes.composite import FailedChildError
+
     if isinstance(e, ReadinessError):
         return "Readiness"
+    if isinstance(e, FailedChildError):
+        return "FailedChild"
     if isinstance(e, ValueCopyError):
         return "ValueCopy"
     if isinstance(e, ChannelConnectionError):
@@ -938,8 +1223,11 @@ def run_impl(case):
 
     N.reset()
     variant = _variant()
-    nodes, chans, links = layout(case["nodes"])
+    nodes, chans, links, wires = layout(case["nodes"], full=True)
     tops = [getattr(N, spec)(label=f"n{i}") for i, spec in enumerate(case["nodes"])]
+    from .execsim import CtlExecutor, Scheduler, _run_job
+
+    sched = Scheduler([])
     wf = None
     if case.get("wf"):
         from pyiron_workflow import Workflow
@@ -962,6 +1250,7 @@ def run_impl(case):
             cobj.append((o.inputs if c["panel"] == "in" else o.outputs)[c["label"]])
         world["nobj"], world["cobj"] = nobj, cobj
         world["index"] = {id(ch): i for i, ch in enumerate(cobj)}
+        world["bylabel"] = {o.full_label: n["id"] for n, o in zip(nodes, nobj)}
 
     resolve()
     nobj, cobj, index = world["nobj"], world["cobj"], world["index"]
@@ -976,6 +1265,15 @@ def run_impl(case):
     assert seen_links == sorted(links), f"value links drift: {seen_links} vs {links}"
     for c, ch in zip(chans, cobj):
         assert ch.type_hint is c["hint"], f"hint drift on {c}"
+    # ... and so are the connections made inside macros, in the predicted order, and the cache switches
+    want_conns = [[] for _ in chans]
+    for a, b in wires:
+        want_conns[a].insert(0, b)
+        want_conns[b].insert(0, a)
+    seen_conns = [[index.get(id(p), -1) for p in ch.connections] for ch in cobj]
+    assert seen_conns == want_conns, f"initial connections drift: {seen_conns} vs {want_conns}"
+    for n, o in zip(nodes, nobj):
+        assert bool(o.use_cache) == (n["spec"] in CACHED), f"use_cache drift on {n}"
     calls = []
     pool = {}
 
@@ -1046,6 +1344,27 @@ def run_impl(case):
             elif kind == "run":
                 who = op[1]
                 nobj[op[1]].run(*[arg(a) for a in op[3]], **{k: arg(a) for k, a in op[2]})
+            elif kind == "runx":
+                # run on an executor that ships the job by value (callable, arguments and result through pickle);
+                # the job stays outstanding until `complete`
+                who = op[1]
+                node = nobj[op[1]]
+                node.executor = CtlExecutor(sched, {"pickle": "ctl-pickle", "cloud": "ctl-cloudpickle"}[op[4]])
+                try:
+                    out = node.run(*[arg(a) for a in op[3]], **{k: arg(a) for k, a in op[2]})
+                finally:
+                    node.executor = None
+                if any(j[0] is node for j in sched.jobs):
+                    res = "submitted"
+                del out
+            elif kind == "complete":
+                who = op[1]
+                node = nobj[op[1]]
+                job = next((j for j in sched.jobs if j[0] is node), None)
+                if job is not None:
+                    sched.jobs.remove(job)
+                    _run_job(job)  # the done-callback (`_finish_run`) runs here; what it raises is swallowed by the future
+                    res = "completed"
             elif kind == "strict":
                 cobj[op[1]].strict_hints = bool(op[2])
             elif kind == "flag":
@@ -1055,7 +1374,18 @@ def run_impl(case):
                 # the whole graph through pickle; the history goes on with the copy
                 assert wf is not None, "rt needs a workflow case"
                 try:
-                    new = pickle.loads(dumps(wf, op[1]))
+                    if op[1] == "file":
+                        # the public way: save() to a file, load() into a fresh Workflow of the same label
+                        from pyiron_workflow import Workflow
+
+                        wf.save()
+                        try:
+                            new = Workflow("w", autoload=None)
+                            new.load()
+                        finally:
+                            wf.delete_storage()
+                    else:
+                        new = pickle.loads(dumps(wf, op[1]))
                 except AssertionError:
                     raise
                 except Exception:  # noqa: BLE001
@@ -1063,6 +1393,7 @@ def run_impl(case):
                 else:
                     wf = new
                     tops = [wf.children[f"n{i}"] for i in range(len(tops))]
+                    sched.jobs.clear()  # the futures did not travel
                     resolve()
             elif kind == "rtnode":
                 # one free-standing top-level node through pickle; the copy takes the place of the original, which
@@ -1083,6 +1414,8 @@ def run_impl(case):
                     for ch in cobj:
                         if ch.value_receiver is not None and id(ch.value_receiver) in oldids:
                             ch.value_receiver = None
+                    gone = {id(nobj[m["id"]]) for m in nodes if m["path"][0] == t}
+                    sched.jobs[:] = [j for j in sched.jobs if id(j[0]) not in gone]
                     tops[t] = new
                     resolve()
             else:
@@ -1092,10 +1425,13 @@ def run_impl(case):
         except Exception as e:  # noqa: BLE001
             res = _classify(e)
         new = N.CALLS[n0:]
-        for a in new:
-            calls.append((who, [_canon(v) for v in a]))
+        for a, lab in zip(new, N.WHO[n0:]):
+            calls.append((world["bylabel"].get(lab, -1), [_canon(v) for v in a]))
+        assert len(N.WHO) == len(N.CALLS), "call log and callee log out of step"
         if kind == "run" and new:
             res = "invoked" if res == "ok" else f"invoked+{res}"
+        if kind == "runx" and new:
+            res = f"invoked-early+{res}"  # the function must not run before the job completes
         states.append({"op": op, "res": res, "ncalls": len(new), **snap()})
     obs = [_line(s["res"], s) for s in states[1:]]
     stats = {}
@@ -1116,7 +1452,8 @@ def run_impl(case):
 def nontrivial(case, r):
     for s in r.get("states", [])[1:]:
         k = s["op"][0]
-        if k == "run" and s["res"] in ("invoked", "Readiness", "invoked+Type"):
+        if k in ("run", "runx", "complete") and s["res"] in ("invoked", "Readiness", "invoked+Type", "submitted",
+                                                           "completed", "FailedChild", "invoked+FailedChild"):
             return True
         if k in ("set", "assign", "setinputs", "fetch", "link", "copyio", "rt", "rtnode") and s["res"] == "ok":
             return True
@@ -1151,7 +1488,7 @@ def _rtline(nodes, chans, roots, with_wf):
 
 
 def model_input(case, impl=None):
-    nodes, chans, links = layout(case["nodes"])
+    nodes, chans, links, wires = layout(case["nodes"], full=True)
     lines = []
     lines.append("cfg " + " ".join(map(str, (impl or {}).get("variant") or (1, 0, 0, 1, 0))))
     for c in chans:
@@ -1181,6 +1518,18 @@ def model_input(case, impl=None):
                 lines.append(f"hintbad {a['id']} {b['id']}")
     for a, b in links:
         lines.append(f"recv {a} {b}")
+    for a, b in wires:
+        lines.append(f"wire {a} {b}")
+    quiet = [n["id"] for n in nodes if n["spec"] in QUIET]
+    if quiet:
+        lines.append("quiet " + " ".join(map(str, quiet)))
+    for n in nodes:
+        if n["spec"] in CACHED:
+            lines.append(f"cache {n['id']} 1")
+        if n["kids"]:
+            lines.append(f"kids {n['id']} " + " ".join(map(str, n["kids"])))
+            for k, ds in n["deps"].items():
+                lines.append(f"deps {k} " + " ".join(map(str, ds)))
     for op in case["ops"]:
         k = op[0]
         if k in ("set", "assign"):
@@ -1208,11 +1557,15 @@ def model_input(case, impl=None):
             lines.append(f"copyvalues {'hard' if op[3] else 'soft'} {parts[0]} / {parts[1]}")
         elif k == "run":
             lines.append(f"run {op[1]} {_kwlines(nodes, op[1], op[2], op[3])}".rstrip())
+        elif k == "runx" and op[4] in ("pickle", "cloud"):
+            lines.append(f"submit {op[1]} {_kwlines(nodes, op[1], op[2], op[3])}".rstrip())
+        elif k == "complete":
+            lines.append(f"complete {op[1]}")
         elif k == "strict":
             lines.append(f"strict {op[1]} {op[2]}")
         elif k == "flag":
             lines.append(f"flag {op[1]} {op[2]} {op[3]}")
-        elif k == "rt" and case.get("wf") and op[1] in ("pickle", "cloud"):
+        elif k == "rt" and case.get("wf") and op[1] in ("pickle", "cloud", "file"):
             lines.append(_rtline(nodes, chans, tops_of(nodes), True))
         elif k == "rtnode" and not case.get("wf") and op[1] in tops_of(nodes) and op[2] in ("pickle", "cloud"):
             lines.append(_rtline(nodes, chans, [op[1]], False))
@@ -1298,9 +1651,11 @@ def _f(clause, k, op, detail, **extra):
     return {"clause": clause, "detail": f"after op #{k} {op}: {detail}", "signature": sig}
 
 
-def _judge(nodes, chans, out_ch, k, pre, post, stamps):
-    """the clauses of the statement for one operation, given the oracle's time stamps of the present connections"""
+def _judge(nodes, chans, out_ch, k, pre, post, stamps, pend=None):
+    """the clauses of the statement for one operation, given the oracle's time stamps of the present connections;
+    `pend` = node -> arguments of the jobs that are out on an executor"""
     fails = []
+    pend = pend or {}
     op, res = post["op"], post["res"]
     pv = [_val(x) for x in pre["vals"]]
     qv = [_val(x) for x in post["vals"]]
@@ -1338,9 +1693,30 @@ def _judge(nodes, chans, out_ch, k, pre, post, stamps):
             fails.append(_f("assignment-effect", k, op, f"values {qv} expected {ev}"))
         if (err is None) != (res == "ok"):
             fails.append(_f("assignment-effect", k, op, f"outcome {res} expected {err or 'ok'}"))
-    if kind == "run":
+    new_calls = post["calls"][len(pre["calls"]):]
+    # ---- no function is ever called on missing or ill-typed data, whoever the callee is (the node, a child of a
+    # ---- composite, a copy of the node on an executor); hints as strict as they are when the function is called
+    # ---- (for a job on an executor: when it was admitted)
+    if not (kind == "complete" and pend.get(op[1])):
+        for callee, args in new_calls:
+            cins = nodes[callee]["ins"] if 0 <= callee < len(nodes) else None
+            if cins is None or len(args) != len(cins) or any(
+                    _val(a) == "ND" or (pre["strict"][i] and not admit(chans[i]["hint"], _val(a)))
+                    for i, a in zip(cins, args)):
+                fails.append(_f("called-on-bad", k, op, f"function of node {callee} called with {args}"))
+    if kind == "complete":
+        n = op[1]
+        if pend.get(n):
+            if [(c[0], list(c[1])) for c in new_calls] != [(n, pend[n][0])]:
+                fails.append(_f("executor-args", k, op, f"the job was admitted with {pend[n][0]}, the function "
+                                                      f"received {new_calls}"))
+        elif new_calls:
+            fails.append(_f("gate-open", k, op, f"no job was out, yet {new_calls}"))
+    if kind in ("run", "runx"):
         n = op[1]
         node = nodes[n]
+        comp = bool(node["kids"])
+        cached = node["spec"] in CACHED
         ev = list(pv)
         partners = {i: list(pre["conns"][i]) for i in node["ins"]}
         err, st2 = _deliver(chans, ctx, pre, stamps, k, _items(nodes, op), ev, partners)
@@ -1358,10 +1734,27 @@ def _judge(nodes, chans, out_ch, k, pre, post, stamps):
                         for i in node["ins"])
             if running or failed or not ready:
                 gate = "Readiness"
-        new_calls = post["calls"][len(pre["calls"]):]
         if err is None and gate is None:
             want = [str(ev[i]) for i in node["ins"]]
-            if not res.startswith("invoked"):
+            if kind == "runx":
+                # admitted: the job goes out, nothing is called yet (a cached node may answer from its cache)
+                if new_calls or not (res == "submitted" or (cached and res == "ok")):
+                    fails.append(_f("gate-shut", k, op, f"every input ready, yet the submission ended with {res} "
+                                                        f"and calls {new_calls}"))
+            elif comp:
+                # a composite that is admitted runs its children, each through its own gate (clause called-on-bad);
+                # a child's refusal or failure surfaces as FailedChildError
+                def below(m):
+                    return [m] + [d for kid in nodes[m]["kids"] for d in below(kid)]
+
+                resumed = any(pre["flags"][d][0] for d in below(n)[1:])
+                # (a composite with a child still `running` re-runs exactly those children, outside any `try`: the
+                # child's own refusal surfaces as it is)
+                if res not in ("ok", "invoked", "FailedChild", "invoked+FailedChild") and not resumed:
+                    fails.append(_f("gate-shut", k, op, f"every input ready, yet the run ended with {res}"))
+            elif cached and res == "ok" and not new_calls and [pv[c] for c in out_ch] == [qv[c] for c in out_ch]:
+                pass  # answered from the cache: allowed by the statement's `only if`, and only for a ready node
+            elif not res.startswith("invoked"):
                 fails.append(_f("gate-shut", k, op, f"every input ready, yet the run ended with {res}"))
             elif [(c[0], list(c[1])) for c in new_calls] != [(n, want)]:
                 fails.append(_f("fetch-priority", k, op,
@@ -1425,6 +1818,7 @@ def oracle(case, r):
     # (finding KF-C07-1 of the serialisation property); only used to label a failure as explained by that defect
     alt = {}
     excused = {}  # channel -> value that was present when strict hints were switched on
+    pend = {}  # node -> the arguments its outstanding executor job was admitted with
     out_ch = [c["id"] for c in chans if c["panel"] == "out"]
     for k in range(1, len(states)):
         pre, post = states[k - 1], states[k]
@@ -1433,17 +1827,29 @@ def oracle(case, r):
         kind = op[0]
 
         # ---- expectations that need the stamps as they were before this op
-        now = _judge(nodes, chans, out_ch, k, pre, post, stamps)
+        now = _judge(nodes, chans, out_ch, k, pre, post, stamps, pend)
         explained = False
-        if now and alt != stamps and not _judge(nodes, chans, out_ch, k, pre, post, alt):
+        if now and alt != stamps and not _judge(nodes, chans, out_ch, k, pre, post, alt, pend):
             explained = True
             for f in now:
                 f["signature"]["explained_by"] = "roundtrip-reverses-priority"
         fails.extend(now)
 
+        # ---- jobs out on executors: admitted with the values the inputs hold right after the submission
+        if kind == "runx" and res == "submitted":
+            pend.setdefault(op[1], []).append([str(_val(post["vals"][i])) for i in nodes[op[1]]["ins"]])
+        if kind == "complete" and pend.get(op[1]):
+            pend[op[1]].pop(0)  # the oldest job of the node finishes
+        if kind == "rt" and res == "ok":
+            pend.clear()
+        if kind == "rtnode" and res == "ok":
+            for m in nodes:
+                if m["path"][0] == nodes[op[1]]["path"][0]:
+                    pend.pop(m["id"], None)
+
         # ---- keep the oracle's own time stamps: partners by set difference, never by list position
         order = {}
-        if kind in ("run", "setinputs"):
+        if kind in ("run", "runx", "setinputs"):
             for pos, (c, a) in enumerate(_items(nodes, op)):
                 if isinstance(a, str) and a.startswith("@"):
                     order[(c, int(a[1:]))] = pos
